@@ -158,6 +158,9 @@ def applyAdd (db : DB) (ver : Nat) (kvs : List (Bytes × Bytes)) : DB :=
 def applyDel (db : DB) (ver : Nat) (keys : List Bytes) : DB :=
   keys.foldl (fun d k => erase d (getKey k ver)) db
 
+/-- "last" records written by `MVCCIter.AddMVCC`. -/
+def lastAdd (last : DB) (kvs : List (Bytes × Bytes)) : DB := kvs.foldl (fun d kv => put d kv.1 kv.2) last
+
 /-! ### Trash -/
 
 /-- "--.xxx.--" -/
@@ -254,8 +257,10 @@ record per kv. -/
 def iterAdd (s : State) (ver : Nat) (hash : Bytes) (prev : Option Bytes) (kvs : List (Bytes × Bytes)) :
     State × Res :=
   match add s ver hash prev kvs with
-  | (s', .ok) => ({ s' with last := kvs.foldl (fun d kv => put d kv.1 kv.2) s'.last }, .ok)
+  | (s', .ok) => ({ s' with last := lastAdd s'.last kvs }, .ok)
   | (s', r) => (s', r)
+
+deriving instance DecidableEq for Except
 
 /-- the "last" updates of `MVCCIter.DelMVCC`: for every key of the removed version (only when
 `version > 0`) `GetV(key, version-1)` — not found ⇒ delete the last record, a value ⇒ restore it,
@@ -330,6 +335,23 @@ def Fresh (n : Nat) (db : DB) : Prop := ∀ e ∈ db, ∀ k, e.1 ≠ getKey k n
 
 /-- every record has a version below `n` (versions are added in order: `n` = top + 1). -/
 def Below (n : Nat) (db : DB) : Prop := ∀ e ∈ db, ∃ k i, i < n ∧ e.1 = getKey k i
+
+/-- the "last" records agree with the data region whose versions are all below `n`: for every key,
+the last record is the value of the key's newest version (none if it has no version). -/
+def LastOK (last db : DB) (n : Nat) : Prop := ∀ k, get last k = specRead db k n
+
+/-- no record is covered by the `cutVersion` prefix of a greater record of a DIFFERENT key: whenever
+the prefix Trash remembers for a greater record `x` is a prefix of the data key of `e`, the two
+records belong to the same key (same `cutVersion`).  Pairwise, decidable, about the store only. -/
+def coverOK (x e : Bytes) : Bool :=
+  match cutVersion x with
+  | some p => !(p.isPrefixOf e) || (cutVersion e == some p)
+  | none => true
+
+def NoForeignCover (db : DB) : Prop :=
+  ∀ x ∈ db, ∀ e ∈ db, blt e.1 x.1 = true → coverOK x.1 e.1 = true
+
+instance (db : DB) : Decidable (NoForeignCover db) := by unfold NoForeignCover; infer_instance
 
 instance {β : Type} (db : Store β) : Decidable (Sorted db) := by unfold Sorted; infer_instance
 instance (db : DB) : Decidable (NoEmpty db) := by unfold NoEmpty; infer_instance
